@@ -191,7 +191,7 @@ def X1(vc):
 
 
 # ----------------------------------------------------------------------------------------------- X6
-@harness('X6', targets='kopf._core.actions.invocation.invoke', props=['C09', 'C20', 'C11'],
+@harness('X6', targets='kopf._core.actions.invocation.invoke', props=['C09', 'C20', 'C11', 'C06'],
          clauses=['never_finishes_before_the_thread', 'cancellation_postponed_not_lost', 'result_or_error_passed_through',
                   'async_awaited_directly', 'kwargs_merged'],
          canaries=['canary.never_cancelled'],
@@ -239,15 +239,28 @@ def X6(vc):
         st.called_with = kw
         return fn_result
 
+    st.fut_cancelled = False
+
     class Future:
-        def done(self): return st.done
+        def done(self): return st.done or st.fut_cancelled        # (a cancelled future is done -- the thread is not)
         def result(self):
+            if st.fut_cancelled:
+                raise asyncio.CancelledError()
             e = resolve(fn_error)
             if e is not None:
                 raise e
             return st.real()
         def cancel(self): return False
         def add_done_callback(self, cb): pass
+        def __await__(self):
+            # awaited directly, not through asyncio.shield: a cancellation of the awaiting task cancels this future
+            # (asyncio's Task.cancel() passes it on to what the task waits for) -- the executor's thread runs on
+            try:
+                yield from suspend('await future').__await__()
+            except asyncio.CancelledError:
+                st.fut_cancelled = True
+                raise
+            return self.result()
 
     class Loop:
         def run_in_executor(self, executor, real_fn):
